@@ -3,6 +3,7 @@ from __future__ import annotations
 
 import ast
 import hashlib
+import json
 import shutil
 from pathlib import Path
 
@@ -85,8 +86,13 @@ def gen_config(rng):
         conf["cli"] = flist()
         if not conf["cli"] and rng.random() < 0.5:
             conf["cli"] = None
-    elif r < 0.58:
-        conf["shortcut"] = rng.choice(["fix", "review"])
+    elif r < 0.62:
+        # shortcuts: the two built-in ones, or a [tool.inline-snapshot.shortcuts] table of the project that redefines them / adds others (round-9 miss C04-91)
+        if rng.random() < 0.55:
+            conf["shortcuts"] = rng.choice(SHORTCUT_TABLES)
+        conf["shortcut"] = rng.choice(sorted(sc_table(conf)))
+    elif r < 0.68:
+        conf["shortcuts"] = rng.choice(SHORTCUT_TABLES)      # a table that is defined and not used
     if rng.random() < 0.3:
         conf["env_var"] = flist() or ["report"]
     if rng.random() < 0.4:
@@ -99,9 +105,17 @@ def gen_config(rng):
     return conf
 
 
+SHORTCUT_TABLES = [{"fix": ["fix"]}, {"fix": ["trim"], "review": ["review"]}, {"strim": ["trim"], "fix": ["create", "fix"]}, {"up": ["update", "fix"]},
+                   {"review": ["fix", "review"]}, {"fix": ["report"], "all": ["create", "fix", "trim", "update"]}, {"review": ["create"]}]
+
+
+def sc_table(conf):
+    return conf.get("shortcuts") or {"fix": ["create", "fix"], "review": ["review"]}
+
+
 def effective(conf):
     """harness replica of the precedence rule, only used to know which review questions will be asked (stdin)"""
-    cli = conf["cli"] if conf["cli"] is not None else ({"fix": ["create", "fix"], "review": ["review"]}[conf["shortcut"]] if conf["shortcut"] else None)
+    cli = conf["cli"] if conf["cli"] is not None else (sc_table(conf)[conf["shortcut"]] if conf["shortcut"] else None)
     if cli is not None:
         return cli
     if conf["env_var"] is not None:
@@ -112,7 +126,7 @@ def effective(conf):
 
 
 def g_env(conf):
-    cli = conf["cli"] if conf["cli"] is not None else ({"fix": ["create", "fix"], "review": ["review"]}[conf["shortcut"]] if conf["shortcut"] else None)
+    cli = conf["cli"] if conf["cli"] is not None else (sc_table(conf)[conf["shortcut"]] if conf["shortcut"] else None)
     fl = lambda l: g_list(l, g_flag)  # noqa
     return ("{| cli := %s; env_var := %s; cfg_default := %s; cfg_default_tui := %s; tty := %s; xdist := %s; ci := %s; cpython := true |}" % (
         g_opt(cli, fl), g_opt(conf["env_var"], fl),
@@ -145,6 +159,8 @@ def run_config(conf):
         if conf["skip"]:
             tool.append("skip-snapshot-updates-for-now = true")
         files["pyproject.toml"] = "[tool.inline-snapshot]\n" + "\n".join(tool) + "\n"
+        if conf.get("shortcuts"):
+            files["pyproject.toml"] += "\n[tool.inline-snapshot.shortcuts]\n" + "".join(f"{k} = {json.dumps(v)}\n" for k, v in conf["shortcuts"].items())
         driver.write_project(d, files)
         before = tree_hash(d)
         args = []
@@ -305,7 +321,10 @@ def run(ctx: Ctx):
             "skip": False, "answers": {c: False for c in CATS}}
     for extra in ({"cli": ["review"], "tty": True}, {"cli": ["review"], "tty": True, "answers": {c: True for c in CATS}}, {"cfg_default": ["fix", "trim"], "xdist": 2},
                   {"env_var": ["create", "fix"], "xdist": 2}, {"cli": ["create", "fix", "trim", "update"]}, {"cli": ["short-report", "fix"]}, {},
-                  {"cli": ["fix"], "ci": "GITHUB_ACTIONS"}, {"tty": True}, {"cli": ["trim", "report"]}):
+                  {"cli": ["fix"], "ci": "GITHUB_ACTIONS"}, {"tty": True}, {"cli": ["trim", "report"]},
+                  # shortcuts of the project: a redefined --fix that approves fix only, an added one, a redefined --review that also approves fix
+                  {"shortcut": "fix", "shortcuts": {"fix": ["fix"]}}, {"shortcut": "strim", "shortcuts": {"strim": ["trim"], "fix": ["create", "fix"]}},
+                  {"shortcut": "review", "shortcuts": {"review": ["fix", "review"]}, "tty": True}, {"shortcut": "fix"}):
         confs.append({**base, **extra})
     from .. import xfailfam
     xfailfam.check(ctx, "C04")
